@@ -115,14 +115,14 @@ class Driver:
         self.act("Rl", self.evid[id(r)])
         return rel
 
-    def op_cancel(self, r, generator_exit=False):
+    def op_cancel(self, pid, r, generator_exit=False):
         if generator_exit:
             r.__exit__(GeneratorExit, GeneratorExit(), None)     # the with-block exit on generator cleanup: cancel only
         else:
             r.cancel()
-        self.act("Cn", self.evid[id(r)])
+        self.act("Cn", pid, self.evid[id(r)])
 
-    def note_exit(self, r):
+    def note_exit(self, pid, r):
         """r.__exit__ has just run: find the Release it created"""
         new = [e[3] for e in sorted(self.env._queue, key=lambda e: e[2])
                if isinstance(e[3], self.R.Release) and id(e[3]) not in self.evid and e[3].resource is self.res]
@@ -130,11 +130,11 @@ class Driver:
             raise RuntimeError("recording: with-exit created %d Release events" % len(new))
         self.register(new[0])
         self.watch(new[0])
-        self.act("Ex", self.evid[id(r)])
+        self.act("Ex", pid, self.evid[id(r)])
 
-    def op_exit(self, r):
+    def op_exit(self, pid, r):
         r.__exit__(None, None, None)
-        self.note_exit(r)
+        self.note_exit(pid, r)
 
     # ---- a driver process ----------------------------------------------------------------------------
     def proc(self, pid, script):
@@ -177,13 +177,13 @@ class Driver:
                     elif op in ("cancel", "gexit"):
                         if not usable():
                             continue
-                        self.op_cancel(st["cur"], op == "gexit")
+                        self.op_cancel(pid, st["cur"], op == "gexit")
                         if not st["cur"].triggered:
                             st["cancelled"], st["active"] = True, False
                     elif op == "exit":
                         if not usable():
                             continue
-                        self.op_exit(st["cur"])
+                        self.op_exit(pid, st["cur"])
                         if not st["cur"].triggered:
                             st["cancelled"] = True
                         st["active"] = False
@@ -209,7 +209,7 @@ class Driver:
                                 yield env.timeout(ins[3])
                         finally:
                             if r is not None:
-                                self.note_exit(r)
+                                self.note_exit(pid, r)
                                 if not r.triggered:
                                     st["cancelled"] = True
                                 st["active"] = False
@@ -228,7 +228,7 @@ class Driver:
                 if st["cur"].triggered:
                     self.op_release(st["cur"])
                 elif not st["cancelled"]:
-                    self.op_cancel(st["cur"])
+                    self.op_cancel(pid, st["cur"])
                 st["active"] = False
             for _ in range(2):
                 try:
@@ -357,7 +357,7 @@ class C06(Prop):
         def action(a):
             if a[0] == "Rq":
                 return f"Rq {cf.z(a[1])} {cf.z(a[2])} {cf.b(a[3])}"
-            return f"{a[0]} {cf.z(a[1])}"
+            return a[0] + " " + " ".join(cf.z(x) for x in a[1:])
 
         def snap(s):
             pe = cf.lst([cf.pair(cf.b(x[0]), cf.z(x[1])) for x in s[4]])
@@ -425,16 +425,19 @@ class C06(Prop):
             newusers = [i for i in users if i not in pusers]
             if newusers != new:
                 msgs.append(f"grant-order: {where}: new users {newusers} but newly triggered requests by rank are {new}")
-            gone = [i for i in pusers if i not in users]
-            if a[0] in ("Rl", "Ex"):
-                r = a[1]
-                q_exp = [i for i in pqueue if i != r] if a[0] == "Ex" else pqueue
-                if [i for i in pusers if i != r] != users or queue != q_exp or new:
+            released = a[2] if a[0] == "Ex" else (a[1] if a[0] == "Rl" else None)
+            cancelled = a[2] if a[0] in ("Cn", "Ex") else None
+            gone = [i for i in pusers if i not in users and i != released]
+            lost = [i for i in pqueue if i not in queue and i not in new and i != cancelled]
+            if lost:
+                msgs.append(f"queue-lost-request: {where}: {lost} left the queue without being granted or cancelled")
+            if a[0] == "Rl":
+                # releasing frees the slot of a user, and changes nothing else (twice / non-user: nothing at all)
+                if [i for i in pusers if i != released] != users or queue != pqueue or new:
                     msgs.append(f"release-changed-state: {where}: users {pusers}->{users} queue {pqueue}->{queue} newly granted {new}")
-            elif a[0] == "Cn":
-                q_exp = [i for i in pqueue if i != a[1]]
-                if users != pusers or queue != q_exp or new:
-                    msgs.append(f"cancel-changed-state: {where}: users {pusers}->{users} queue {pqueue}->{queue}")
+            elif a[0] == "Pq" or (a[0] == "Cn" and cancelled not in pqueue):
+                if users != pusers or queue != pqueue or new:
+                    msgs.append(f"noop-changed-state: {where}: users {pusers}->{users} queue {pqueue}->{queue} newly granted {new}")
             elif a[0] == "Ad":
                 if prev[4]:
                     msgs.append(f"advance-with-pending: {where}: events {prev[4]} of the resource are triggered and unprocessed")
@@ -442,7 +445,11 @@ class C06(Prop):
                     msgs.append(f"idle-slot-at-advance: {where}: requests {pqueue} wait while {cap - len(pusers)} slot(s) are free (users {pusers})")
                 if users != pusers or queue != pqueue or new:
                     msgs.append(f"advance-changed-state: {where}")
-            elif gone:
+            if cancelled is not None and cancelled in queue:
+                msgs.append(f"cancel-ineffective: {where}: request {cancelled} is still queued")
+            if a[0] == "Ex" and released in users:
+                msgs.append(f"release-changed-state: {where}: request {released} is still a user after the with-exit")
+            if gone:
                 # users that vanish without a release: evictions
                 if kind != "preempt":
                     msgs.append(f"unexpected-eviction: {where}: users {gone} vanished from a {kind} resource")
@@ -542,13 +549,15 @@ class C06(Prop):
         prev = [0, [], [], 0, [], [], 0]
         flags = set()
         for a, s in zip(acts, obs["snaps"]):
-            if a[0] == "Cn" and a[1] in prev[2]:
+            if a[0] == "Cn" and a[2] in prev[2]:
                 flags.add("cancel-of-queued")
-                if prev[2][0] == a[1] and len(prev[2]) > 1:
+                if len(s[5]) > len(prev[5]):
+                    flags.add("grant-at-cancel-rescan")
+                if prev[2][0] == a[2] and len(prev[2]) > 1:
                     flags.add("cancel-of-queue-head-with-waiter-behind")
-            if a[0] == "Ex" and a[1] in prev[2]:
+            if a[0] == "Ex" and a[2] in prev[2]:
                 flags.add("with-exit-of-queued")
-            if a[0] == "Ex" and a[1] in prev[1]:
+            if a[0] == "Ex" and a[2] in prev[1]:
                 flags.add("with-exit-of-user")
             if a[0] == "Rl" and a[1] not in prev[1]:
                 flags.add("release-of-non-user")
